@@ -1003,11 +1003,17 @@ def gen_conv_archive(rng, rb=b""):
     comps = [b"a", b"b", b"c", b"r", b"d1", b"x", b"y", b"rx", b"q"]
     n = rng.randint(1, 9)
     out = b""
+    used = []
     for _ in range(n):
         depth = rng.choice([0, 1, 1, 2, 2, 3])
         path = b"/".join(rng.choice(comps) for _ in range(depth)) if depth else rng.choice([b"./", b"/", b".", b"r", b"r/", b"a/b/", b"./r"])
+        if used and rng.random() < 0.2:
+            path = rng.choice(used)                           # the same name again (EEXIST unless an implicit directory is made explicit)
+            depth = 0
+        used.append(path)
         if depth and rb and rng.random() < 0.7:
             path = rb + b"/" + path
+            used[-1] = path
         elif depth and rng.random() < 0.3:
             path = rng.choice([b"./", b"/", b"r/", b"a/b/", b".//"]) + path
         kind = rng.choice(["dir", "dir", "file", "file", "slink", "slink", "fifo", "chr", "blk"])
